@@ -351,4 +351,4 @@ def collect_mvs(obj, out):
 
 
 def snapshot(mv):
-    return (tuple(mv._keys), snap_values(mv._values))
+    return (tuple(mv.keys()), snap_values(mv.values()))      # public accessors only
